@@ -48,6 +48,12 @@ MUTANTS = [
     ("validate-meta-data-mtime-weakened", "C02", "validate_meta", "mypy/build.py", "        if data_mtime != meta.data_mtime:", "        if data_mtime < meta.data_mtime:", "violation"),
     ("validate-meta-hash-of-old-path", "C02", "validate_meta", "mypy/build.py", "                source_hash = manager.fscache.hash_digest(path)", "                source_hash = manager.fscache.hash_digest(meta.path)", "violation"),
     ("validate-meta-restamp-without-hash-match", "C02", "validate_meta", "mypy/build.py", "        if source_hash != meta.hash:\n            if fine_grained_cache:", "        if source_hash != meta.hash and size != meta.size:\n            if fine_grained_cache:", "violation"),
+    ("store-fs-write-in-place", "C04", "store.fs", "mypy/metastore.py", '            with open(tmp_filename, "wb") as f:\n                f.write(data)\n            os.replace(tmp_filename, path)', '            with open(path, "wb") as f:\n                f.write(data)', "violation"),
+    ("store-fs-replace-before-close", "C04", "store.fs", "mypy/metastore.py", '            with open(tmp_filename, "wb") as f:\n                f.write(data)\n            os.replace(tmp_filename, path)', '            with open(tmp_filename, "wb") as f:\n                f.write(data)\n                os.replace(tmp_filename, path)', "violation"),
+    ("store-fs-rename-local-harmless", "C04", "store.fs", "mypy/metastore.py", '        tmp_filename = path + "." + random_string()\n        try:\n            os.makedirs(os.path.dirname(path), exist_ok=True)\n            with open(tmp_filename, "wb") as f:\n                f.write(data)\n            os.replace(tmp_filename, path)', '        scratch = path + "." + random_string()\n        try:\n            os.makedirs(os.path.dirname(path), exist_ok=True)\n            with open(scratch, "wb") as f:\n                f.write(data)\n            os.replace(scratch, path)', "pass"),
+    ("write-cache-mtime-before-data-write", "C04", "proto.write_cache", "mypy/build.py", "    st = manager.get_stat(path)\n    if st is None:\n        manager.log(f\"Cannot get stat for {path}\")", "    try:\n        data_mtime = manager.getmtime(data_file)\n    except OSError:\n        data_mtime = 0\n    st = manager.get_stat(path)\n    if st is None:\n        manager.log(f\"Cannot get stat for {path}\")", "violation"),
+    ("scc-meta-ex-skipped-when-no-errors", "C04", "proto.scc.meta", "mypy/build.py", "        write_cache_meta_ex(meta_file, meta_ex, manager)\n        manager.commit_module(meta_file)\n    manager.done_sccs.add(ascc.id)\n    manager.add_stats(\n        load_missing_time=t1 - t0,", "        if meta_ex.error_lines or indirect:\n            write_cache_meta_ex(meta_file, meta_ex, manager)\n        manager.commit_module(meta_file)\n    manager.done_sccs.add(ascc.id)\n    manager.add_stats(\n        load_missing_time=t1 - t0,", "violation"),
+    ("sqlite-autocommit", "C04", "sqlite", "mypy/metastore.py", "db = sqlite3.dbapi2.connect(db_file, check_same_thread=False)", "db = sqlite3.dbapi2.connect(db_file, check_same_thread=False, isolation_level=None)", "violation"),
     ("enabled-parent-check-dropped", "C13", "is_error_code_enabled", "mypy/errors.py", "elif error_code.sub_code_of is not None and error_code.sub_code_of in current_mod_disabled:\n            return False", "elif error_code.sub_code_of is not None and error_code.sub_code_of in current_mod_enabled:\n            return False", "violation"),
 ]
 
